@@ -1,5 +1,6 @@
 import MitmVerif.Model.C41_Spec
 import MitmVerif.Model.C41_Lib
+import MitmVerif.Model.C41_Url
 import Driver.Proto
 open MitmVerif Driver MitmVerif.C41
 
@@ -56,7 +57,20 @@ def mkPrim (t : Tab) (alt : Bool) : Prim where
   urlHostport := fun u => askO t alt "uh" [u]
   urlPretty := fun u h => askB t alt "pu" [u, optArg h]
 
-def mkLib (t : Tab) (alt : Bool) : Lib := C41.mkLib (mkPrim t alt)
+/-- the CPython answers the URL transcription still needs (keys: UTF-8 of the code-point string) -/
+def mkUrlPrim (t : Tab) (alt : Bool) : UrlPrim where
+  validBracketed := fun x => match t.lookup (key "vb" [toText x]) with
+    | some v => v = "01"
+    | none => alt
+  idnaRt := fun x => (askO t alt "id" [toText x]).map toStr
+  validHost := fun x => match t.lookup (key "vh" [toText x]) with
+    | some v => v = "01"
+    | none => alt
+  validAuthHost := fun x => match t.lookup (key "va" [toText x]) with
+    | some v => v = "01"
+    | none => alt
+
+def mkLib (t : Tab) (alt : Bool) : Lib := C41.mkLibU (mkPrim t alt) (mkUrlPrim t alt)
 
 def parseHdrs (s : String) : Option Hdrs :=
   if s = "-" then some [] else
